@@ -8,6 +8,10 @@
 //!           | @A           (server, anywhere in the line) the session has an authorization handler (role "operator"): a
 //!                          counting policy - every third query is denied - whose queries appear in `calls`
 //!                          (an application quota / audit handler: consulting it is an observable effect)
+//!           | @Qw          (client, anywhere) the outstanding request is a write-single-register (unit 1, register 3 :=
+//!                          0x3333) instead of the read of five holding registers
+//!           | @X           (client) the application drops the future of the outstanding request now (abort of the task
+//!                          awaiting it); whatever the peer sends afterwards must not hurt the channel task
 //!           | @R           the transmit path has room again (releases a parked write)
 //!                          (client: @W / @R tokens before the first chunk take effect before the request is sent)
 //!   role    = server | client
@@ -203,7 +207,7 @@ async fn run_server(framing: Framing, level: DecodeLevel, tokens: Vec<Token>) ->
             }
             Token::Write(w) => wire.script_writes(&[*w]),
             Token::Release => wire.release_write(),
-            Token::Auth => {}
+            Token::Auth | Token::WriteRequest | Token::DropRequest => {}
         }
         settle().await;
     }
@@ -248,6 +252,8 @@ pub enum Token {
     Write(WriteStep),
     Release,
     Auth,
+    WriteRequest,
+    DropRequest,
 }
 
 fn panic_text(e: tokio::task::JoinError) -> String {
@@ -288,7 +294,14 @@ async fn run_client(framing: Framing, level: DecodeLevel, tokens: Vec<Token>) ->
     // a request is outstanding while the peer's bytes arrive, then idle
     let param = RequestParam::new(UnitId::new(1), Duration::from_secs(1));
     let ch = channel.clone();
-    let req = tokio::spawn(async move { ch.read_holding_registers(param, AddressRange::try_from(0, 5).unwrap()).await });
+    let write_request = tokens.iter().any(|t| matches!(t, Token::WriteRequest));
+    let req = tokio::spawn(async move {
+        if write_request {
+            ch.write_single_register(param, Indexed::new(3, 0x3333)).await.map(|x| vec![x])
+        } else {
+            ch.read_holding_registers(param, AddressRange::try_from(0, 5).unwrap()).await
+        }
+    });
     settle().await;
     let mut n = 0;
     for t in &tokens {
@@ -307,7 +320,8 @@ async fn run_client(framing: Framing, level: DecodeLevel, tokens: Vec<Token>) ->
             }
             Token::Write(w) => wire.script_writes(&[*w]),
             Token::Release => wire.release_write(),
-            Token::Auth => {}
+            Token::Auth | Token::WriteRequest => {}
+            Token::DropRequest => req.abort(),
         }
         settle().await;
     }
@@ -366,6 +380,10 @@ fn run_case(line: &str) -> String {
                 Token::Write(WriteStep::Accept(k.parse().unwrap_or(1)))
             } else if *h == "@A" {
                 Token::Auth
+            } else if *h == "@Qw" {
+                Token::WriteRequest
+            } else if *h == "@X" {
+                Token::DropRequest
             } else if *h == "@R" {
                 Token::Release
             } else {
